@@ -99,6 +99,21 @@ func (x *Exec) callFunc(fr *Frame, st *State, fn *ssa.Function, bindings []Val, 
 	key := env.keyOf(fn)
 	con := env.con.Funcs[key]
 	inPkg := fn.Pkg == env.spkg || (fn.Origin() != nil && fn.Origin().Pkg == env.spkg) || (fn.Parent() != nil)
+	if x.guardMode && inPkg {
+		recvOwned := false
+		if r := fn.Signature.Recv(); r != nil {
+			rt := r.Type()
+			if p := derefType(rt); p != nil {
+				rt = p
+			}
+			recvOwned = env.con.guardSpec().Owned[env.te.namedKey(rt)]
+		}
+		// calls that are inlined are checked access by access inside the body
+		inl := con == nil && len(fn.Blocks) > 0 || con != nil && con.Flags["inline"] != ""
+		if !inl {
+			x.guardCall(st, key, args, recvOwned, in.Pos())
+		}
+	}
 	if con != nil {
 		con.used = true
 		if it := con.Flags["iterator"]; it != "" && x.unit.Fn != fn && (fn.Origin() == nil || x.unit.Fn != fn.Origin()) {
@@ -291,6 +306,20 @@ func (x *Exec) applyContract(fr *Frame, st *State, con *FuncContract, fn *ssa.Fu
 		}
 	}
 	rv := x.freshResult(st, rt)
+	if x.guardMode && x.env.con.Ctors[key] {
+		// a constructor's result is a new object, not yet visible to other goroutines
+		if x.freshRefs == nil {
+			x.freshRefs = map[*Term]bool{}
+		}
+		switch v := rv.(type) {
+		case *PtrVal:
+			if v.Base == PObj {
+				x.freshRefs[v.Ref] = true
+			}
+		case *Term:
+			x.freshRefs[v] = true
+		}
+	}
 	if rt == nil && fn.Signature.Results().Len() > 0 {
 		// deferred call / go: result unused
 		if fn.Signature.Results().Len() == 1 {
